@@ -17,6 +17,10 @@ SIZES_R = [1, 2, 3, 4, 5, 7, 10, 24, 50, 120]
 SIZES_C = [1, 2, 5, 10, 20, 49, 50, 80, 160, 250]
 FLAGS = ["--touchscreen", "--disable-lat-long", "--disable-callsign", "--disable-icao", "--disable-heading", "--disable-track", "--limit-parsing", "--retry-tcp", "--max-range=60", "--max-range=0"]
 AIRCRAFT = [0x4840D6, 0xABC001, 0x3C6586, 0x000001, 0xFFFFFE]
+# receiver positions given on the command line: None = the default site; the others are values the
+# f64 parser accepts or rejects - radar may refuse them (usage error) or run, but never crash
+RXS = [None, None, None, ("nan", "4.0"), ("52.0", "inf"), ("-inf", "nan"), ("90", "180"), ("-90", "-180"), ("1e308", "-1e308"), ("0", "0"), ("52.0", "184.0")]
+NAV = [6, 7, 8, 9, 10, 11, 12]  # Up Down Left Right Enter + -
 
 
 def traffic(n_ac, with_pos, step):
@@ -49,10 +53,13 @@ def run_case(case):
         opts += [f"--scale={case['scale']}"]
     rows, cols = SIZES_R[case["rows"] % len(SIZES_R)], SIZES_C[case["cols"] % len(SIZES_C)]
     connect = not case.get("no_server", False)
-    s = RadarSession("c17", rows=rows, cols=cols, lat=RX[0], lon=RX[1], opts=opts, connect=connect, filter_time=1 if case.get("expiry") else None)
+    rx = RXS[case.get("rx", 0) % len(RXS)] or RX
+    s = RadarSession("c17", rows=rows, cols=cols, lat=rx[0], lon=rx[1], opts=opts, connect=connect, filter_time=1 if case.get("expiry") else None)
     try:
         time.sleep(0.15)
         step_no = 0
+        if rx is not RX and not s.alive() and s.p.proc.returncode == 2 and "error:" in (s.stderr() + bytes(s.p.out).decode(errors="replace")):
+            return fails  # the value was refused with a usage error: allowed
 
         def check(after):
             s.p.pump(0.12)
@@ -214,6 +221,25 @@ def classify(case):
     return cls, (small or airplanes_tab_empty or bool(case.get("no_server")) or ("wait_expiry" in kinds and fed))
 
 
+def burst_cases():
+    """finite sweeps played on every run: every pair of selection / view keys written in one burst on
+    every tab, with no aircraft, with aircraft, and right after all aircraft expired while another
+    tab was shown; and two positioned aircraft under every listed receiver position"""
+    base = {"flags": [], "rows": 7, "cols": 7, "expiry": False, "quit": 0, "no_server": False, "locations": None, "scale": None, "rx": 0}
+    pairs = [["paste", [a, b]] for a in NAV for b in NAV]
+    out = []
+    for tab in range(5):
+        out.append(dict(base, steps=[["key", tab]] + pairs + [["paste", [tab, k]] for k in NAV]))
+    out.append(dict(base, steps=[["feed", 3, 1], ["key", 2]] + pairs))
+    steps = []
+    for k in NAV:
+        steps += [["feed", 2, 1], ["key", 2], ["key", 7], ["key", 0], ["wait_expiry"], ["paste", [2, k]]]
+    out.append(dict(base, expiry=True, steps=steps))
+    for i in range(3, len(RXS)):
+        out.append(dict(base, rx=i, steps=[["feed", 3, 1], ["feed_tab", 3, 1, 3], ["feed_tab", 2, 1, 0], ["key", 2], ["key", 7], ["key", 10]]))
+    return out
+
+
 def run_any(case):
     if case.get("cli"):
         return run_cli_case(case)
@@ -227,6 +253,7 @@ def worker(args):
         st.tuples(st.just("key"), st.integers(0, len(KEYSET) - 1)),
         st.tuples(st.just("key"), st.sampled_from([2, 7, 10, 6, 3])),  # F3, Down, Enter, Up, F4
         st.tuples(st.just("paste"), st.lists(st.integers(0, len(KEYSET) - 1), min_size=2, max_size=6)),
+        st.tuples(st.just("paste"), st.lists(st.integers(0, 12), min_size=2, max_size=5)),  # bursts of tab / selection / view keys
         st.tuples(st.just("mouse"), st.integers(0, 7), st.sampled_from([0, 1, 2, 5, 9, 11, 30, 49, 79, 200, 300]), st.sampled_from([0, 1, 2, 3, 4, 8, 15, 23, 49, 100, 250])),
         st.tuples(st.just("click_tab"), st.integers(0, 4)),
         st.tuples(st.just("resize"), st.integers(0, len(SIZES_R) - 1), st.integers(0, len(SIZES_C) - 1)),
@@ -248,9 +275,12 @@ def worker(args):
         "no_server": st.sampled_from([False, False, False, False, False, True]),
         "locations": st.one_of(st.none(), st.just(["(home,52.1,4.2)"]), st.just(["(a,51.0,3.0)", "(b,53.5,6.5)"])),
         "scale": st.one_of(st.none(), st.sampled_from([0.12, 0.01, 5.0, 1e-9, 1e9, 0.0, -1.0])),
+        "rx": st.integers(0, len(RXS) - 1),
     })
     cli = st.fixed_dictionaries({"cli": st.just(True), "opt": st.sampled_from(sorted(BAD_VALUES) + ["--locations", "--locations"]), "val": st.integers(0, 19), "extra_location": st.booleans()})
-    case_s = st.one_of(session, session, session, cli)
+    # (one_of over strategies of very different size favours the small one: pick the kind explicitly;
+    # the CLI grammar is also swept completely on every run)
+    case_s = st.sampled_from(list(range(10))).flatmap(lambda k: cli if k == 0 else session)
 
     @seed(args.seed * 1000 + 17 * 7 + args.worker)
     @settings(max_examples=args.n, deadline=None, database=None, suppress_health_check=list(HealthCheck), phases=[Phase.generate, Phase.shrink], report_multiple_bugs=False)
@@ -312,12 +342,12 @@ def main():
     per = 14 if tier == "quick" else 500
     rc = pbt.run_parallel(
         PID, os.path.abspath(__file__), tier, 12, per, "exploration",
-        "Hypothesis-generated sessions with the radar binary on a real pty: start options (touchscreen, disable flags, limit-parsing, retry, locations, scale incl. 0/negative/huge), initial terminal size from {1..120} x {1..250}, then up to 18 steps from {key, burst of keys in one write, SGR mouse event at arbitrary/out-of-window coordinates, click on a tab, resize + SIGWINCH, feed of 0-5 aircraft with or without positions, wait for expiry with --filter-time 1}; after every step the process must be alive with no panic on stderr; then quit by q or Ctrl-C (also while waiting for the first connection): exit 0, termios equal to the snapshot taken before start, mouse reporting off, cursor visible. Separately: invalid values for every value-taking option must give a clap usage error (status 2), not a panic. non-trivial = size < 5 in a dimension, Airplanes/Stats tab with no aircraft, aircraft expiring, quit without server, or a CLI case; distinct by hash of the case",
+        "Hypothesis-generated sessions with the radar binary on a real pty: start options (touchscreen, disable flags, limit-parsing, retry, locations, scale incl. 0/negative/huge), initial terminal size from {1..120} x {1..250}, then up to 18 steps from {key, burst of keys in one write, SGR mouse event at arbitrary/out-of-window coordinates, click on a tab, resize + SIGWINCH, feed of 0-5 aircraft with or without positions, wait for expiry with --filter-time 1}; after every step the process must be alive with no panic on stderr; then quit by q or Ctrl-C (also while waiting for the first connection): exit 0, termios equal to the snapshot taken before start, mouse reporting off, cursor visible. Swept on every run: every pair of selection/view keys in one burst on every tab (no aircraft, aircraft, just expired), receiver positions incl. NaN/inf/poles/antimeridian with positioned aircraft. Separately: invalid values for every value-taking option must give a clap usage error (status 2), not a panic. non-trivial = size < 5 in a dimension, Airplanes/Stats tab with no aircraft, aircraft expiring, quit without server, or a CLI case; distinct by hash of the case",
         ["each step waits 120 ms for the event loop (50 ms read timeout + 10 ms poll); a crash that needs longer than that after its trigger is attributed to a later step", "a client that does not connect within 10 s is inconclusive"],
         a.seed,
         regress_one=run_any,
         # the invalid-value grammar is finite: swept completely on every run
-        extra_cases=[{"cli": True, "opt": o, "val": i, "extra_location": e} for o in sorted(BAD_VALUES) for i in range(len(BAD_VALUES[o])) for e in ((False, True) if o == "--locations" else (False,))],
+        extra_cases=[{"cli": True, "opt": o, "val": i, "extra_location": e} for o in sorted(BAD_VALUES) for i in range(len(BAD_VALUES[o])) for e in ((False, True) if o == "--locations" else (False,))] + burst_cases(),
         exhaustive=True,
     )
     sys.exit(rc)
